@@ -68,6 +68,7 @@ def run(coro_fn, start=BASE, on_idle=None):
     Clock.now = start
     loop = VLoop(on_idle)
     asyncio.set_event_loop(loop)
+    loop.set_exception_handler(lambda _l, _c: None)  # 'Task exception was never retrieved' of deliberately failing background bodies
     try:
         return loop.run_until_complete(coro_fn())
     finally:
